@@ -30,26 +30,31 @@ from ..translate import util as tu
 PROPERTY = "C19"
 CASE_TIMEOUT = 300  # s of wall clock per case in pool workers (runner watchdog): a case that spins forever is a verdict, not exit 2
 THEOREM_MODULE = "NemoVerif.Theorems.C19"
-RULE = ("fn: 1-4 sequential calls of the decorated _get_embeddings with 0-7 texts from a 9-symbol alphabet (duplicates, '', unicode), "
+RULE = ("fn: 1-4 sequential calls of the decorated _get_embeddings with 0-7 texts from a 14-symbol alphabet (duplicates, '', unicode incl. composed/decomposed pair, case pair, whitespace pair, two pairs of long texts with a common 30/100-char prefix), "
         "cache in {off, in_memory, filesystem(tmp dir), harness-registered shared store} x key generator in {md5, hash, harness-registered hex}, "
         "store pre-populated with a random subset. sched: 1-40 concurrent requests (search() with a stub index) + 0-3 direct _get_embeddings "
         "calls, batch size 1-8, hold in {0.5,1,1.5,2,3,10} ticks (integer holds coincide with integer arrival ticks), arrival ticks clustered/spread, per-call model latency from {no await, 0, 0.3, 0.7, 2.2, 5}, "
         "virtual-time loop; thorough adds ALL non-decreasing arrival vectors over {0..3} of <=4 requests x batch size <=3 x text partitions x 6 (hold, latency) pairs x 2 caches. "
+        "multi: 2-3 BasicEmbeddingsIndex objects in ONE process created through the real provider registry (register_embedding_provider/_init_model), models from 4 stub models (2 share dimension 4, others 6 and 3; sometimes the same model twice), "
+        "cache per index in {off, in_memory, filesystem(dir k), shared store(slot k)} x key generator, same or different locations, batching on/off, 1-4 phases (sequential or concurrent, arrival offsets) of 1-6 ops "
+        "{_get_embeddings(list), search(text), add_items(list), recreate (drop the index object and build a new one from the same or ANOTHER configuration)} over a shared alphabet; a failing multi case is re-run in a fresh process. "
         "non-trivial: fn = cache enabled and a call mixes hits and misses or has duplicates; sched = some batch carried >=2 requests, or a request "
-        "had to wait for `submitted`, or two in-flight batches overlapped.")
+        "had to wait for `submitted`, or two in-flight batches overlapped; multi = a cache is on and the same text went through two different models.")
 TRUSTED_BASE = [
     "correspondence harness harness/props/C19.py (event-loop with virtual time, logging asyncio.Event subclass, logging overrides of _run_batch/_get_embeddings/_batch_get_embeddings that delegate to super()) + Lean driver Drive/C19.lean",
     "asyncio semantics: code between two suspension points is atomic; Event.wait() on a set event does not yield; Event.set() makes all waiters runnable (modelled, tied by replaying the recorded schedule)",
+    "multi-index cases: probe stores (key recording, sharing probes written after the run), the recording of begin/finish of every decorated _get_embeddings call, re-run of a failing case in a fresh process",
     "the stub embedding model is pointwise and deterministic (md5-derived vector), as the property's premise 'the vector the embedding model gives for that text' requires",
 ]
 ASSUMPTIONS = [
     "the key generator is injective on the texts in use (hypothesis InjOn; hash/MD5 collisions not modelled; kernel-checked counterexample cached_needs_injective_keys)",
     "the embedding model answers every call with one vector per document and does not raise; Redis store not exercised; request cancellation not modelled",
     "max_batch_size >= 1 for the progress theorems (with 0 the first request waits forever on a never-set event)",
+    "several indexes: NoForeignShare (two indexes using one store location never produce the same key for texts their models embed differently) is a hypothesis of cached_correct_multi; evaluated on the real store objects / real keys / model vectors of every multi-index case; it fails exactly in the region of the open finding shared-store-different-models (kernel-checked counterexample cached_multi_shared_store_as_is_counterexample)",
 ]
 EXHAUSTIVE = {"quick": False, "thorough": True}
 
-ALPHABET = ["a", "b", "", "c", "hello world", "é∑", "a ", "B", "long " * 6]
+ALPHABET = ["a", "b", "", "c", "hello world", "é∑", "a ", "B", "long " * 6, "long " * 6 + "tail", "Hello World", "e\u0301∑", "x" * 100 + "1", "x" * 100 + "2"]
 LAT = [None, 0, 0.3, 0.7, 2.2, 5.0]
 HOLD = [0.5, 1.0, 1.5, 2.0, 3.0, 10.0]
 
@@ -66,6 +71,19 @@ def vec(t):
 
 def venc(v):
     return None if v is None else json.dumps(v)
+
+
+def mvec(model, t):
+    """vector of text t under the stub model named `<id>.<dim>` (multi-index cases): different ids give different
+    vectors for every text, dims differ between some models"""
+    dim = int(model.rsplit(".", 1)[1])
+    d = hashlib.md5((model + "|v:" + t).encode("utf-8")).digest()
+    return [b / 7.0 for b in d[:dim - 1]] + [float(len(t))]
+
+
+_MLATS = {}     # model name -> {"lats": [...], "calls": [...]} for the current multi-index case
+_MREC = None    # {"n": calls so far, "ev": [...]}: begin/finish records of every decorated _get_embeddings call of a multi-index case
+_MSTEPS = None  # [n] event-wait counter while a multi-index case runs (busy-loop guard without the recorder)
 
 
 # ----------------------------------------------------------------------------- static tie
@@ -157,6 +175,10 @@ def _setup():
             rec = _REC
             if rec is not None:
                 rec.ev_wait(self)
+            elif _MSTEPS is not None:
+                _MSTEPS[0] += 1
+                if _MSTEPS[0] > 200000:
+                    raise SpinDetected("instrumentation step limit: busy loop")
             r = await super().wait()
             if rec is not None:
                 rec.ev_woke(self)
@@ -196,9 +218,18 @@ def _setup():
         async def _get_embeddings(self, texts):
             if _REC is not None:
                 _REC.ge_in(texts)
+            mrec, cid = _MREC, None
+            if mrec is not None:
+                # multi-index cases: the wrapper's first atomic section starts right here (no suspension before the cache
+                # look-ups) and its second one ends with the return: the order of these records is the order of the sections
+                cid = mrec["n"]
+                mrec["n"] += 1
+                mrec["ev"].append(["begin", cid, getattr(self, "_verif_spec", -1), list(texts)])
             r = await super()._get_embeddings(texts)
             if _REC is not None:
                 _REC.ge_out(r)
+            if mrec is not None:
+                mrec["ev"].append(["finish", cid, [venc(v) for v in r] if isinstance(r, list) else None])
             return r
 
         async def _batch_get_embeddings(self, text):
@@ -227,6 +258,30 @@ def _setup():
         def encode(self, documents):
             return [vec(t) for t in documents]
 
+    class _Stub2(EmbeddingModel):
+        """multi-index cases: created through the REAL path (`register_embedding_provider` -> `_init_model` ->
+        `init_embedding_model` and its process-wide instance table); the model name carries identity and dimension"""
+        engine_name = "verif_stub2"
+
+        def __init__(self, embedding_model):
+            self.name = embedding_model
+
+        async def encode_async(self, documents):
+            st = _MLATS.get(self.name)
+            lat = None
+            if st is not None:
+                st["calls"].append(list(documents))
+                lat = st["lats"][(len(st["calls"]) - 1) % len(st["lats"])] if st["lats"] else None
+            if lat is not None:
+                await asyncio.sleep(lat)
+            return [mvec(self.name, t) for t in documents]
+
+        def encode(self, documents):
+            return [mvec(self.name, t) for t in documents]
+
+    from nemoguardrails.embeddings.providers import register_embedding_provider
+    register_embedding_provider(_Stub2, "verif_stub2")
+
     class HexKeyGenerator(KeyGenerator):
         name = "verif_hex"
 
@@ -236,18 +291,45 @@ def _setup():
     class SharedStore(CacheStore):
         name = "verif_shared"
         data = {}
+        slots = {}  # multi-index cases: store_config {"slot": k} selects one of several shared stores
+
+        def __init__(self, slot=None):
+            self.slot = slot
+
+        def _d(self):
+            return SharedStore.data if self.slot is None else SharedStore.slots.setdefault(self.slot, {})
 
         def get(self, key):
-            return SharedStore.data.get(key)
+            return self._d().get(key)
 
         def set(self, key, value):
-            SharedStore.data[key] = value
+            self._d()[key] = value
 
         def clear(self):
-            SharedStore.data = {}
+            if self.slot is None:
+                SharedStore.data = {}
+            else:
+                SharedStore.slots[self.slot] = {}
 
+    class KeyProbeStore(CacheStore):
+        """records the keys the real wrapper derives (multi-index cases: the model's key table is read off the real code
+        path `cache_embeddings -> EmbeddingsCache.get -> key generator`, whatever goes into the key)"""
+        name = "verif_keyprobe"
+        log = []
+
+        def get(self, key):
+            KeyProbeStore.log.append(key)
+            return None
+
+        def set(self, key, value):
+            pass
+
+        def clear(self):
+            pass
+
+    globals()["KeyProbeStore"] = KeyProbeStore
     globals()["SharedStore"] = SharedStore
-    globals()["_KEEP"] = (HexKeyGenerator, SharedStore, TEvent, Shim)  # __subclasses__() holds weak references only
+    globals()["_KEEP"] = (HexKeyGenerator, SharedStore, KeyProbeStore, TEvent, Shim)  # __subclasses__() holds weak references only
     TIndex, Stub = _TIndex, _Stub
     logging.getLogger("nemoguardrails.embeddings.cache").setLevel(logging.ERROR)
     logging.getLogger("asyncio").setLevel(logging.CRITICAL)
@@ -497,6 +579,9 @@ def run_impl(case):
     try:
         if case["kind"] == "fn":
             return _run_fn(case, tmpdir)
+        if case["kind"] == "multi":
+            obs = _run_multi(case, tmpdir)
+            return _verify_fresh(case, obs)
         return _run_sched(case, tmpdir)
     finally:
         shutil.rmtree(tmpdir, ignore_errors=True)
@@ -613,6 +698,557 @@ def _run_sched(case, tmpdir):
             pass
 
 
+
+# ----------------------------------------------------------------------------- several indexes in one process
+
+def _m_cache_config(spec, tmpdir):
+    c = spec["cache"]
+    if c["store"] == "off":
+        return {"enabled": False}
+    sc = {}
+    if c["store"] == "filesystem":
+        sc = {"cache_dir": os.path.join(tmpdir, "fs%d" % c.get("loc", 0))}
+    elif c["store"] == "verif_shared":
+        sc = {"slot": c.get("loc", 0)}
+    return {"enabled": True, "store": c["store"], "key_generator": c["keygen"], "store_config": sc}
+
+
+def _m_loc(spec, i):
+    """declared identity of the store of index i: indexes with equal identity read and write the same entries.
+    `in_memory` is a new empty store object per call (EmbeddingsCache.from_config), i.e. shared with nobody."""
+    c = spec["cache"]
+    if c["store"] == "filesystem":
+        return c.get("loc", 0)
+    if c["store"] == "verif_shared":
+        return 100 + c.get("loc", 0)
+    return 1000 + i
+
+
+def _m_persistent(spec):
+    return spec["cache"]["store"] in ("filesystem", "verif_shared")
+
+
+def _m_texts(case):
+    out = []
+    for ph in case["phases"]:
+        for op in ph["ops"]:
+            for t in (op.get("texts") or ([op["text"]] if "text" in op else [])):
+                if t not in out:
+                    out.append(t)
+    return out
+
+
+def _m_ops(case):
+    """(op number, phase number, phase, op, spec): `ix` of an op is a SLOT; slot i initially holds an index built from
+    case["indexes"][i]; `recreate` drops the index object of a slot and puts a new one there, built from the same spec or
+    from spec `as` (another model / cache configuration: the second instance at the same place)"""
+    k = 0
+    slot = list(range(case.get("nslots", len(case["indexes"]))))
+    for pi, ph in enumerate(case["phases"]):
+        for op in ph["ops"]:
+            if op["op"] == "recreate":
+                slot[op["ix"]] = op.get("as", slot[op["ix"]])
+            yield k, pi, ph, op, slot[op["ix"]]
+            k += 1
+
+
+def _m_real_keys(sp, texts):
+    """[[text, key]]: the key under which an index with this model / key generator files `text`, observed on the real
+    wrapper (a probe index with the same model and key generator whose store only records the keys it is asked for)"""
+    if sp["cache"]["store"] == "off":
+        return [[t, "off:" + t] for t in texts]
+    kg = _keygen(sp["cache"]["keygen"])
+    probe = TIndex(embedding_model=sp["model"], embedding_engine="verif_stub2",
+                   cache_config={"enabled": True, "store": "verif_keyprobe", "key_generator": sp["cache"]["keygen"], "store_config": {}})
+    out = []
+    for t in texts:
+        KeyProbeStore.log = []
+        coro = probe._get_embeddings([t])
+        try:
+            coro.send(None)
+            coro.close()
+        except StopIteration:
+            pass
+        except Exception:  # noqa
+            pass
+        out.append([t, KeyProbeStore.log[0] if KeyProbeStore.log else kg.generate_key(t)])
+    return out
+
+
+def _run_multi(case, tmpdir):
+    global _MSTEPS, _MREC
+    from nemoguardrails.embeddings.cache import EmbeddingsCache
+    from nemoguardrails.embeddings.index import IndexItem
+    from nemoguardrails.rails.llm.config import EmbeddingsCacheConfig
+    import nemoguardrails.embeddings.providers as prov
+
+    specs = case["indexes"]
+    try:
+        prov._embedding_model_cache.clear()  # replays must not depend on what an earlier case left in this worker
+    except AttributeError:
+        pass
+    SharedStore.slots = {}
+    _MLATS.clear()
+    texts = _m_texts(case)
+    obs = {"keys": [], "vecs": []}
+    for sp in specs:
+        obs["keys"].append(_m_real_keys(sp, texts))
+        obs["vecs"].append([[t, venc(mvec(sp["model"], t))] for t in texts])
+    for sp in specs:
+        _MLATS.setdefault(sp["model"], {"lats": sp.get("lats") or [None], "calls": []})
+
+    def make(i):
+        sp = specs[i]
+        ix = TIndex(embedding_model=sp["model"], embedding_engine="verif_stub2", use_batching=sp.get("batching", False),
+                    max_batch_size=sp.get("max", 3), max_batch_hold=sp.get("hold", 1.0), cache_config=_m_cache_config(sp, tmpdir))
+        ix._verif_spec = i
+        return ix
+
+    loop = VLoop()
+    _MSTEPS = [0]
+    _MREC = {"n": 0, "ev": []}
+    try:
+        idxs = [make(i) for i in range(case.get("nslots", len(specs)))]
+        cfgs = [EmbeddingsCacheConfig(**_m_cache_config(sp, tmpdir)) for sp in specs]
+        for cfg in cfgs:
+            # every case starts from empty caches (public API), so that a replay does not depend on what earlier cases
+            # of this worker process left in process-wide state
+            if cfg.enabled:
+                EmbeddingsCache.from_config(cfg).clear()
+        results = {}
+
+        async def run_op(k, op):
+            name = f"op{k}"
+            ix = idxs[op["ix"]]
+            try:
+                if op["op"] == "get":
+                    r = await ix._get_embeddings(list(op["texts"]))
+                    results[name] = {"status": "ok", "vecs": [venc(v) for v in r]} if isinstance(r, list) else {"status": "exc: not a list"}
+                elif op["op"] == "search":
+                    if ix._index is None:
+                        ix._index = FakeAnnoy()
+                    await ix.search(op["text"])
+                    results[name] = {"status": "ok", "vecs": [venc(ix._index.seen.get(name))]}
+                elif op["op"] == "add":
+                    if ix._index is not None:
+                        await ix.add_items([IndexItem(text=t, meta={}) for t in op["texts"]])
+                        results[name] = {"status": "ok", "skipped": True, "vecs": []}
+                    else:
+                        n0 = len(ix._embeddings)
+                        await ix.add_items([IndexItem(text=t, meta={}) for t in op["texts"]])
+                        results[name] = {"status": "ok", "vecs": [venc(v) for v in ix._embeddings[n0:]], "size": ix._embedding_size,
+                                         "first_len": len(ix._embeddings[0]) if ix._embeddings else None}
+            except SpinDetected as e:
+                results[name] = {"status": "spin: " + str(e)}
+            except Exception as e:  # noqa
+                results[name] = {"status": "exc: " + type(e).__name__ + ": " + str(e)[:80]}
+
+        cur = list(range(len(idxs)))
+
+        async def main():
+            hung = 0
+            k = 0
+            for ph in case["phases"]:
+                if ph["mode"] == "seq":
+                    for op in ph["ops"]:
+                        if op["op"] == "recreate":
+                            cur[op["ix"]] = op.get("as", cur[op["ix"]])
+                            idxs[op["ix"]] = None  # the old object is released first (its address may be reused)
+                            idxs[op["ix"]] = make(cur[op["ix"]])  # a second index object (same or another configuration)
+                            results[f"op{k}"] = {"status": "ok", "vecs": []}
+                        else:
+                            t = loop.create_task(run_op(k, op), name=f"op{k}")
+                            done, pending = await asyncio.wait([t], timeout=1e6)
+                            for p in pending:
+                                p.cancel()
+                                hung += 1
+                        k += 1
+                else:
+                    t0 = loop.time()
+                    tasks = []
+                    for at, kk, op in sorted((op.get("at", 0), k + j, op) for j, op in enumerate(ph["ops"])):
+                        if t0 + at > loop.time():
+                            await asyncio.sleep(t0 + at - loop.time())
+                        tasks.append(loop.create_task(run_op(kk, op), name=f"op{kk}"))
+                    k += len(ph["ops"])
+                    if tasks:
+                        done, pending = await asyncio.wait(tasks, timeout=1e6)
+                        for p in pending:
+                            p.cancel()
+                            hung += 1
+                for _ in range(3):
+                    await asyncio.sleep(0)
+            return hung
+
+        obs["hung"] = loop.run_until_complete(main())
+        obs["ops"] = [results.get(f"op{k}", {"status": "hung"}) for k, _, _, _, _ in _m_ops(case)]
+        obs["calls"] = _MREC["ev"]
+        _MREC = None
+        obs["model_calls"] = {m: st["calls"] for m, st in _MLATS.items()}
+        obs["leftover"] = [{"queue": len(ix._req_queue), "results": len(ix._req_results)} for ix in idxs]
+        idxs = None
+        # final content of every declared store location
+        stores = {}
+        for i, sp in enumerate(specs):
+            if not _m_persistent(sp):
+                continue
+            loc = _m_loc(sp, i)
+            if sp["cache"]["store"] == "filesystem":
+                d = os.path.join(tmpdir, "fs%d" % sp["cache"].get("loc", 0))
+                ent = []
+                for fn in (os.listdir(d) if os.path.isdir(d) else []):
+                    with open(os.path.join(d, fn)) as f:
+                        ent.append([fn, venc(json.load(f))])
+                stores[str(loc)] = sorted(ent)
+            else:
+                stores[str(loc)] = sorted([k, venc(v)] for k, v in SharedStore.slots.get(sp["cache"].get("loc", 0), {}).items())
+        obs["stores"] = stores
+        # store identity, observed on the real objects (hypothesis of cached_correct_multi): does an entry written through
+        # the store that index i's configuration yields show up in the store that index j's configuration yields?
+        # (i == j: two store objects built from the same configuration = what two successive calls of one index see)
+        n = len(specs)
+        shares = [[False] * n for _ in range(n)]
+        try:
+            for i in range(n):
+                if not cfgs[i].enabled:
+                    continue
+                probe = "verif-probe-%d" % i
+                EmbeddingsCache.from_config(cfgs[i])._cache_store.set(probe, [0.5])
+                for j in range(n):
+                    if cfgs[j].enabled:
+                        shares[i][j] = EmbeddingsCache.from_config(cfgs[j])._cache_store.get(probe) is not None
+            obs["shares"] = shares
+        except Exception as e:  # noqa
+            obs["shares"] = "probe failed: " + type(e).__name__ + ": " + str(e)[:80]
+        return obs
+    finally:
+        _MSTEPS = None
+        _MREC = None
+        try:
+            loop.close()
+        except Exception:  # noqa
+            pass
+
+
+_FRESH = [0]
+
+
+def _verify_fresh(case, obs):
+    """A multi-index case that fails in a pool worker is run again in a NEW Python process and that observation is
+    returned: process-wide state that a change of the code under test keeps (class-level tables, memo dicts, registries)
+    survives from case to case inside a worker, so a failure seen there may depend on earlier cases - a replay must fail
+    on its own.  (The polluting history is itself among the generated cases: several indexes, several phases.)
+    Bounded per worker; failures inside the region of the open finding are determined by the configuration alone."""
+    import multiprocessing
+    import subprocess
+    import sys
+    if multiprocessing.current_process().name == "MainProcess" or os.environ.get("C19_FRESH_CHILD") or _FRESH[0] >= 4:
+        return obs
+    try:
+        msg = _m_oracle(case, obs)
+    except Exception:  # noqa
+        return obs
+    if not msg or msg.startswith("[shared-store] "):
+        return obs
+    _FRESH[0] += 1
+    try:
+        p = subprocess.run([sys.executable, "-c", "import sys, json\nfrom harness.props import C19\nprint('\\n' + json.dumps(C19.run_impl(json.load(sys.stdin))))"],
+                           input=json.dumps(case).encode("utf-8"), stdout=subprocess.PIPE, stderr=subprocess.DEVNULL, timeout=120,
+                           env=dict(os.environ, C19_FRESH_CHILD="1"), cwd=os.path.dirname(os.path.dirname(os.path.dirname(os.path.abspath(__file__)))))
+        obs2 = json.loads(p.stdout.decode("utf-8").strip().split("\n")[-1])
+        obs2["in_worker_failure"] = msg
+        return obs2
+    except Exception:  # noqa
+        return obs
+
+
+def _m_declared_shares(case):
+    specs = case["indexes"]
+    n = len(specs)
+    return [[(specs[i]["cache"]["store"] != "off" and specs[j]["cache"]["store"] != "off" and _m_persistent(specs[i])
+              and _m_loc(specs[i], i) == _m_loc(specs[j], j)) for j in range(n)] for i in range(n)]
+
+
+def _m_all_seq(case):
+    return all(ph["mode"] == "seq" for ph in case["phases"])
+
+
+def _m_foreign(case, i):
+    """indexes with a DIFFERENT embedding model whose cache entries index i can read: same store location and same key
+    generator (the region outside the hypothesis of cached_correct_multi; open finding shared-store-different-models)"""
+    specs = case["indexes"]
+    if not _m_persistent(specs[i]):
+        return []
+    return [j for j in range(len(specs)) if j != i and specs[j]["model"] != specs[i]["model"] and _m_persistent(specs[j])
+            and _m_loc(specs[j], j) == _m_loc(specs[i], i) and specs[j]["cache"]["keygen"] == specs[i]["cache"]["keygen"]]
+
+
+def _m_hyp(case, obs):
+    """`NoForeignShare` (hypothesis of cached_correct_multi) evaluated on the REAL objects of the case: for every two
+    configurations whose real store objects see each other's entries, equal real keys imply equal model vectors"""
+    sh = obs.get("shares")
+    if not isinstance(sh, list):
+        return None
+    n = len(case["indexes"])
+    for i in range(n):
+        for j in range(n):
+            if not (sh[i][j] or sh[j][i]):
+                continue
+            vj = dict(map(tuple, obs["vecs"][j]))
+            kj = {}
+            for t, k in obs["keys"][j]:
+                kj.setdefault(k, []).append(t)
+            vi = dict(map(tuple, obs["vecs"][i]))
+            for t, k in obs["keys"][i]:
+                for t2 in kj.get(k, []):
+                    if vi[t] != vj[t2]:
+                        return False
+    return True
+
+
+def _m_oracle(case, obs):
+    specs = case["indexes"]
+    first_known = None
+    for k, pi, ph, op, sx in _m_ops(case):
+        o = obs["ops"][k]
+        i = sx
+        model = specs[i]["model"]
+        where = f"op {k} (phase {pi} {ph['mode']}, slot {op['ix']} index {i} model {model} cache {specs[i]['cache']['store']}) {op['op']}"
+        if o["status"] != "ok":
+            return f"{where} did not complete: {o['status']}"
+        if op["op"] == "recreate" or o.get("skipped"):
+            continue
+        texts = op["texts"] if "texts" in op else [op["text"]]
+        exp = [venc(mvec(model, t)) for t in texts]
+        if o["vecs"] != exp:
+            bad = [q for q in range(max(len(exp), len(o["vecs"]))) if q >= len(exp) or q >= len(o["vecs"]) or exp[q] != o["vecs"][q]]
+            q = bad[0]
+            got = o["vecs"][q] if q < len(o["vecs"]) else "missing"
+            owner = [f"model {sp['model']}'s vector of {t!r}" for sp in specs for t in _m_texts(case) if venc(mvec(sp["model"], t)) == got]
+            msg = (f"{where} texts {texts}: position {q} is not the vector model {model} gives for {texts[q] if q < len(texts) else '?'!r}"
+                   + (f" (it is {owner[0]})" if owner else f" (got {got})"))
+            # exact cross-talk through a store that the configuration shares between different models?
+            xt = q < len(texts) and any(got == venc(mvec(specs[j]["model"], texts[q])) for j in _m_foreign(case, i))
+            if xt and all(bq < len(texts) and bq < len(o["vecs"]) and any(o["vecs"][bq] == venc(mvec(specs[j]["model"], texts[bq])) for j in _m_foreign(case, i)) for bq in bad):
+                if first_known is None:
+                    first_known = "[shared-store] " + msg
+                continue
+            return msg
+        if op["op"] == "add" and o.get("size") is not None and o["size"] != o.get("first_len"):
+            return f"{where}: embedding_size {o['size']} is not the length of the stored vectors"
+    return first_known
+
+
+def _m_signature(case, obs, msg):
+    if msg.startswith("[shared-store] "):
+        return "shared-store-different-models"
+    return None
+
+
+def _m_labels(obs):
+    """the recorded begin/finish sequence as labels of Embed.mstep (`finish k`: k-th call still open)"""
+    open_, labels, finished = [], [], []
+    for e in obs.get("calls", []):
+        if e[0] == "begin":
+            open_.append(e[1])
+            labels.append(["begin", e[2], e[3]])
+        else:
+            labels.append(["finish", open_.index(e[1])])
+            open_.remove(e[1])
+            finished.append(e[2])
+    return labels, finished
+
+
+def _m_model_requests(case, obs):
+    specs = case["indexes"]
+    ixs = [{"cfg": {"enabled": sp["cache"]["store"] != "off", "persistent": _m_persistent(sp)}, "loc": _m_loc(sp, i),
+            "keys": obs["keys"][i], "vecs": obs["vecs"][i]} for i, sp in enumerate(specs)]
+    reqs = [{"m": "C19.mreplay", "indexes": ixs, "labels": _m_labels(obs)[0]}]
+    if not _m_all_seq(case):
+        return reqs
+    ops = []
+    for k, pi, ph, op, sx in _m_ops(case):
+        if op["op"] == "recreate" or obs["ops"][k].get("skipped"):
+            ops.append([sx, None])
+        else:
+            ops.append([sx, op["texts"] if "texts" in op else [op["text"]]])
+    return reqs + [{"m": "C19.multi", "indexes": ixs, "ops": ops}]
+
+
+def _m_compare(case, obs, mouts):
+    if obs.get("shares") != _m_declared_shares(case):
+        return (f"store identity differs from the model's: observed sharing relation of the real store objects {obs.get('shares')}, "
+                f"modelled {_m_declared_shares(case)} (in_memory = new empty store per call, filesystem = one store per cache_dir)")
+    if not mouts:
+        return None
+    # (1) every decorated _get_embeddings call of every index (incl. the ones _run_batch makes), in the recorded order of the
+    # wrapper's atomic sections, replayed in Embed.mstep
+    r = mouts[0]
+    labels, finished = _m_labels(obs)
+    if r["failed_at"] is not None:
+        return f"recorded section #{r['failed_at']} {labels[r['failed_at']]} is not enabled in Embed.mstep"
+    if len(r["returned"]) != len(finished):
+        return f"model returned {len(r['returned'])} calls, implementation {len(finished)}"
+    for k, (mv, iv) in enumerate(zip(r["returned"], finished)):
+        if mv[1] != iv:
+            return f"_get_embeddings call finishing #{k} (index {mv[0]}): impl returned {iv}, model {mv[1]}"
+    if obs.get("hung") == 0 and all(o["status"] == "ok" for o in obs["ops"]):
+        ms = {str(l): sorted(st) for l, st in r["stores"]}
+        for l, st in obs["stores"].items():
+            if st != ms.get(l, []):
+                return f"final store at location {l} differs: impl {st} model (mstep) {ms.get(l, [])}"
+    if _m_hyp(case, obs) is True:
+        # cached_correct_multi applies (its hypotheses hold of the real objects): every replayed call must have returned the
+        # calling index's own vectors in the model - a disagreement here is a proof/model problem, not an implementation one
+        vt = [dict(map(tuple, v)) for v in obs["vecs"]]
+        calls = [e for e in obs.get("calls", []) if e[0] == "begin"]
+        texts_of = {e[1]: (e[2], e[3]) for e in calls}
+        fin = [e for e in obs.get("calls", []) if e[0] == "finish"]
+        for (mi, mv), e in zip(r["returned"], fin):
+            sx, tx = texts_of[e[1]]
+            if 0 <= sx < len(vt) and mv != [vt[sx].get(t) for t in tx]:
+                return f"theorem cached_correct_multi contradicted by the model run: call of index {sx} on {tx} returned {mv}"
+    if len(mouts) < 2:
+        return None
+    # (2) all-sequential cases additionally as whole calls (Embed.multiCalls)
+    m = mouts[1]
+    for k, (o, mr) in enumerate(zip(obs["ops"], m["results"])):
+        if mr is None:
+            continue
+        if o["status"] != "ok":
+            return f"op {k}: implementation {o['status']}, model {mr}"
+        if o["vecs"] != mr:
+            return f"op {k}: impl returned {o['vecs']}, model {mr}"
+    ms = {str(l): sorted(st) for l, st in m["stores"]}
+    for l, st in obs["stores"].items():
+        if st != ms.get(l, []):
+            return f"final store at location {l} differs: impl {st} model {ms.get(l, [])}"
+    return None
+
+
+def _m_nontrivial(case, obs):
+    specs = case["indexes"]
+    if len(set(sp["model"] for sp in specs)) < 2:
+        return False
+    seen = {}
+    for k, pi, ph, op, sx in _m_ops(case):
+        for t in (op.get("texts") or ([op["text"]] if "text" in op else [])):
+            seen.setdefault(t, set()).add(specs[sx]["model"])
+    return any(len(v) >= 2 for v in seen.values()) and any(sp["cache"]["store"] != "off" for sp in specs)
+
+
+def _m_tags(case, obs):
+    specs = case["indexes"]
+    t = ["kind:multi", "nidx:%d" % len(specs), "models:%d" % len(set(sp["model"] for sp in specs)),
+         "dims:%d" % len(set(sp["model"].rsplit(".", 1)[1] for sp in specs))]
+    for st in sorted(set(sp["cache"]["store"] for sp in specs)):
+        t.append("mcache:" + st)
+    t.append("hyp:NoForeignShare-on-real-objects:" + {True: "holds", False: "fails", None: "unknown"}[_m_hyp(case, obs)])
+    if any(_m_foreign(case, i) for i in range(len(specs))):
+        t.append("hyp:store-shared-by-different-models")
+    elif any(any(r[j] for j in range(len(r)) if j != i) for i, r in enumerate(_m_declared_shares(case))):
+        t.append("store-shared-by-same-model")
+    t.append("phases:" + ("seq" if _m_all_seq(case) else "conc" if all(ph["mode"] == "conc" for ph in case["phases"]) else "mixed"))
+    kinds = set(op["op"] for _, _, _, op, _ in _m_ops(case))
+    t.extend("mop:" + k for k in sorted(kinds))
+    if any(sp.get("batching") for sp in specs):
+        t.append("mbatching")
+    if _m_nontrivial(case, obs):
+        t.append("same-text-through-two-models")
+    if obs.get("hung"):
+        t.append("hung")
+    return t
+
+
+MODELS = ["m0.4", "m1.4", "m2.6", "m3.3"]
+
+
+def g_multi(rng):
+    n = rng.choice([2, 2, 2, 3])
+    alpha = rng.sample(ALPHABET, rng.randint(2, 5))
+    if rng.random() < 0.12:
+        models = [rng.choice(MODELS)] * n
+    else:
+        models = rng.sample(MODELS, n) if rng.random() < 0.7 else [rng.choice(MODELS) for _ in range(n)]
+    uniform = rng.random() < 0.55  # one cache configuration for all indexes (what a rails config usually has)
+    r = rng.random()
+    ustore = "in_memory" if r < 0.4 else "filesystem" if r < 0.75 else "verif_shared" if r < 0.9 else "off"
+    ukg = rng.choice(["md5", "md5", "hash", "verif_hex"])
+    same_loc = rng.random() < 0.3
+    specs = []
+    for i in range(n):
+        if uniform:
+            store, kg = ustore, ukg
+        else:
+            store, kg = rng.choice(["in_memory", "in_memory", "filesystem", "filesystem", "verif_shared", "off"]), rng.choice(["md5", "hash", "verif_hex"])
+        loc = 0 if same_loc else (i if rng.random() < 0.8 else rng.randint(0, n - 1))
+        specs.append({"model": models[i], "cache": {"store": store, "keygen": kg, "loc": loc}, "batching": rng.random() < 0.4,
+                      "max": rng.randint(1, 4), "hold": rng.choice(HOLD), "lats": [rng.choice(LAT) for _ in range(rng.randint(1, 3))]})
+    phases = []
+    allseq = rng.random() < 0.5
+    nslots = n - 1 if (n == 3 and rng.random() < 0.3) else n  # a spare configuration that only `recreate ... as` brings in
+    for _ in range(rng.randint(1, 4)):
+        mode = "seq" if allseq or rng.random() < 0.4 else "conc"
+        ops = []
+        added = set()
+        for _ in range(rng.randint(1, 6)):
+            ix = rng.randrange(nslots)
+            r = rng.random()
+            if r < 0.4:
+                ops.append({"ix": ix, "op": "get", "texts": g_texts(rng, rng.choice([1, 1, 2, 3, 4]), alpha)})
+            elif r < 0.75:
+                ops.append({"ix": ix, "op": "search", "text": rng.choice(alpha)})
+            elif r < 0.9:
+                if mode == "conc" and ix in added:
+                    continue
+                added.add(ix)
+                ops.append({"ix": ix, "op": "add", "texts": g_texts(rng, rng.randint(1, 4), alpha)})
+            elif mode == "seq":
+                ops.append({"ix": ix, "op": "recreate"})
+                if rng.random() < 0.4:
+                    ops[-1]["as"] = rng.randrange(n)
+            if mode == "conc" and ops and rng.random() < 0.3:
+                ops[-1]["at"] = rng.choice([0, 0.5, 1, 2])
+        if ops:
+            phases.append({"mode": mode, "ops": ops})
+    if not phases:
+        phases = [{"mode": "seq", "ops": [{"ix": 0, "op": "get", "texts": [alpha[0]]}, {"ix": 1, "op": "get", "texts": [alpha[0]]}]}]
+        nslots = n
+    case = {"kind": "multi", "indexes": specs, "phases": phases}
+    if nslots != n:
+        case["nslots"] = nslots
+    return case
+
+
+def _m_shrink(case):
+    phs = case["phases"]
+    for pi in range(len(phs)):
+        if len(phs) > 1:
+            yield dict(case, phases=phs[:pi] + phs[pi + 1:])
+    for pi, ph in enumerate(phs):
+        for oi in range(len(ph["ops"])):
+            if len(ph["ops"]) > 1:
+                yield dict(case, phases=phs[:pi] + [dict(ph, ops=ph["ops"][:oi] + ph["ops"][oi + 1:])] + phs[pi + 1:])
+        for oi, op in enumerate(ph["ops"]):
+            if "texts" in op and len(op["texts"]) > 1:
+                for q in range(len(op["texts"])):
+                    yield dict(case, phases=phs[:pi] + [dict(ph, ops=ph["ops"][:oi] + [dict(op, texts=op["texts"][:q] + op["texts"][q + 1:])] + ph["ops"][oi + 1:])] + phs[pi + 1:])
+        if ph["mode"] == "conc":
+            yield dict(case, phases=phs[:pi] + [dict(ph, mode="seq", ops=[{k: v for k, v in op.items() if k != "at"} for op in ph["ops"]])] + phs[pi + 1:])
+    used = set(op["ix"] for _, _, _, op, _ in _m_ops(case))
+    if "nslots" not in case and not any("as" in op for _, _, _, op, _ in _m_ops(case)) and len(case["indexes"]) > 1:
+        for i in range(len(case["indexes"])):
+            if i not in used:
+                remap = lambda x: x - 1 if x > i else x  # noqa
+                yield dict(case, indexes=case["indexes"][:i] + case["indexes"][i + 1:],
+                           phases=[dict(ph, ops=[dict(op, ix=remap(op["ix"])) for op in ph["ops"]]) for ph in phs])
+    for i, sp in enumerate(case["indexes"]):
+        if sp.get("batching"):
+            yield dict(case, indexes=case["indexes"][:i] + [dict(sp, batching=False)] + case["indexes"][i + 1:])
+        if sp.get("lats") and sp["lats"] != [None]:
+            yield dict(case, indexes=case["indexes"][:i] + [dict(sp, lats=[None])] + case["indexes"][i + 1:])
+
+
 # ----------------------------------------------------------------------------- model side
 
 def _cfg(case):
@@ -620,6 +1256,8 @@ def _cfg(case):
 
 
 def model_requests(case, obs):
+    if case["kind"] == "multi":
+        return _m_model_requests(case, obs)
     base = {"cfg": _cfg(case), "keys": obs["keys"], "vecs": obs["vecs"], "store": obs["pre"]}
     if case["kind"] == "fn":
         return [dict(base, m="C19.cached", calls=case["calls"])]
@@ -632,7 +1270,23 @@ def model_requests(case, obs):
     return [dict(base, m="C19.replay", max=case["max"], reqs=reqs, directs=directs, trace=obs["trace"])]
 
 
+def _inj_problem(tables):
+    """hypothesis `InjOn g U` of cached_correct / batch_safety / cached_correct_multi, checked on the real key generator:
+    distinct texts in use must have distinct keys"""
+    for tbl in tables:
+        seen = {}
+        for t, k in tbl:
+            if k in seen and seen[k] != t:
+                return f"hypothesis InjOn fails on the real key generator: texts {seen[k]!r} and {t!r} have the same cache key {k!r}"
+            seen[k] = t
+    return None
+
+
 def compare(case, obs, mouts):
+    if case["kind"] == "multi":
+        return _inj_problem(obs["keys"]) or _m_compare(case, obs, mouts)
+    if _inj_problem([obs["keys"]]):
+        return _inj_problem([obs["keys"]])
     m = mouts[0]
     if case["kind"] == "fn":
         if any(isinstance(r, dict) for r in obs["results"]):
@@ -673,9 +1327,11 @@ def compare(case, obs, mouts):
 # ----------------------------------------------------------------------------- oracle
 
 def oracle(case, obs):
-    keys = dict(map(tuple, obs["keys"]))
-    if len(set(keys.values())) != len(keys):
-        return None  # a key collision among the texts in use: outside the property's modelled range
+    if case["kind"] == "multi":
+        return _m_oracle(case, obs)
+    # NOTE: no excuse for key collisions: the texts of the alphabet are distinct and md5 / hash / hex keys of distinct short
+    # texts are distinct, so colliding keys can only come from a key derivation that drops part of the text - that is a
+    # violation (the returned vectors show it), not a case outside the property.
     if case["kind"] == "fn":
         for ci, (texts, res) in enumerate(zip(case["calls"], obs["results"])):
             if isinstance(res, dict):
@@ -700,10 +1356,14 @@ def oracle(case, obs):
 
 
 def signature(case, obs, msg):
+    if case.get("kind") == "multi":
+        return _m_signature(case, obs, msg)
     return None
 
 
 def nontrivial(case, obs):
+    if case["kind"] == "multi":
+        return _m_nontrivial(case, obs)
     if case["kind"] == "fn":
         if case["cache"]["store"] == "off":
             return False
@@ -717,6 +1377,8 @@ def nontrivial(case, obs):
 
 
 def tags(case, obs):
+    if case["kind"] == "multi":
+        return _m_tags(case, obs)
     t = ["kind:" + case["kind"], "cache:" + case["cache"]["store"] + ("/" + case["cache"]["keygen"] if case["cache"]["store"] != "off" else "")]
     if case["kind"] == "fn":
         t.append("calls:%d" % len(case["calls"]))
@@ -829,19 +1491,20 @@ def g_exhaustive():
 
 def gen_cases(rng, tier):
     if tier == "quick":
-        nfn, nsch, nbig = 20000, 1200, 100
+        nfn, nsch, nbig, nmulti = 20000, 1200, 100, 4000
     else:
-        nfn, nsch, nbig = 200000, 8500, 1500
+        nfn, nsch, nbig, nmulti = 200000, 8500, 1500, 40000
     cases = [g_fn(rng) for _ in range(nfn)]
     cases += [g_sched(rng) for _ in range(nsch)]
     cases += [g_sched(rng, big=True) for _ in range(nbig)]
+    cases += [g_multi(rng) for _ in range(nmulti)]
     if tier == "thorough":
         cases += list(g_exhaustive())
     return cases
 
 
 def escalate(rng, focus, tier):
-    cases = [g_sched(rng) for _ in range(3000)] + [g_sched(rng, big=True) for _ in range(300)] + [g_fn(rng) for _ in range(20000)]
+    cases = [g_sched(rng) for _ in range(3000)] + [g_sched(rng, big=True) for _ in range(300)] + [g_fn(rng) for _ in range(20000)] + [g_multi(rng) for _ in range(4000)]
     if focus and focus.get("kind") == "sched":
         for _ in range(1500):
             c = json.loads(json.dumps(focus))
@@ -856,6 +1519,9 @@ def escalate(rng, focus, tier):
 
 
 def shrink(case):
+    if case["kind"] == "multi":
+        yield from _m_shrink(case)
+        return
     if case["kind"] == "fn":
         for i in range(len(case["calls"])):
             yield dict(case, calls=case["calls"][:i] + case["calls"][i + 1:])
